@@ -9,54 +9,6 @@ import (
 	"github.com/ThreeDotsLabs/watermill/zzverif/vrt"
 )
 
-// countingSubscriber counts Subscribe calls and hands out channels closed on ctx cancel / Close.
-type countingSubscriber struct {
-	directSubscriber
-	subscribes int
-	ctxs       []context.Context
-	entered    chan struct{} // closed (if non-nil) when Subscribe is first entered
-	gate       chan struct{} // Subscribe waits for this (if non-nil) before returning
-}
-
-func (s *countingSubscriber) Subscribe(ctx context.Context, topic string) (<-chan *Message, error) {
-	s.mu.Lock()
-	s.subscribes++
-	s.ctxs = append(s.ctxs, ctx)
-	first := s.subscribes == 1
-	s.mu.Unlock()
-	if first && s.entered != nil {
-		close(s.entered)
-	}
-	if s.gate != nil {
-		<-s.gate
-	}
-	ch, err := s.directSubscriber.Subscribe(ctx, topic)
-	if err != nil {
-		return nil, err
-	}
-	// honour the Subscriber contract: the channel is closed when the subscription context ends
-	out := make(chan *Message)
-	go func() {
-		defer close(out)
-		for {
-			select {
-			case m, ok := <-ch:
-				if !ok {
-					return
-				}
-				select {
-				case out <- m:
-				case <-ctx.Done():
-					return
-				}
-			case <-ctx.Done():
-				return
-			}
-		}
-	}()
-	return out, nil
-}
-
 // HarnessC10RunHandlers: RunHandlers starts each newly added handler exactly once however often (and
 // from however many goroutines) it is called; Started/Stop/Stopped are usable as soon as Started is closed.
 func HarnessC10RunHandlers() {
